@@ -43,7 +43,16 @@ class Terminal(Expr):
         f = mapping.get(self)
         # No mapping, trying to evaluate self as a constant
         if f is None:
+            # Only a class that provides its own conversion can be evaluated
+            # as a constant: the conversions inherited from Expr evaluate
+            # the expression, i.e. they end up here again.
+            own_conversion = (
+                type(self).__float__ is not Expr.__float__
+                or type(self).__complex__ is not Expr.__complex__
+            )
             try:
+                if not own_conversion:
+                    raise TypeError("No conversion to a number.")
                 try:
                     f = float(self)
                 except TypeError:
